@@ -17,6 +17,7 @@ from typing import Any, Iterator
 
 from .. import core, entries, ipsref, progen
 from ..runner import Stats, Violation
+from ..runner import should_stop as runner_should_stop
 
 PROP = "C14"
 LEVEL = "fault_enumeration"
@@ -60,6 +61,13 @@ ERROR_CLASSES: dict[str, dict[str, Any]] = {
     "unclosed_brace": {"scope": "parse", "text": "{"},
     "sharp_at_end_of_input": {"scope": "parse", "text": "lda #", "last_only": True},
     "missing_include": {"scope": "parse", "text": ".include 'missing_zq.s'"},
+    # a final statement that stops where an expression is expected (what a truncated file ends with)
+    "truncated_operand_at_end": {"scope": "parse", "text": "lda.w", "last_only": True},
+    "truncated_paren_operand_at_end": {"scope": "parse", "text": "lda (", "last_only": True},
+    "truncated_data_list_at_end": {"scope": "parse", "text": ".dw 0x1234,", "last_only": True},
+    "truncated_binary_expression_at_end": {"scope": "parse", "text": "total_zq = 0x10 +", "last_only": True},
+    "truncated_position_at_end": {"scope": "parse", "text": "*=", "last_only": True},
+    "truncated_macro_arguments_at_end": {"scope": "parse", "text": "trunc_zq(1,", "last_only": True},
     "unterminated_comment": {"scope": "parse", "text": "/* never closed", "last_only": True},
     "unclosed_paren": {"scope": "parse", "text": "lda (0x10"},
     "unclosed_bracket": {"scope": "parse", "text": "lda [0x10"},
@@ -134,7 +142,7 @@ def gen_case(cseed: int, tier: str) -> dict[str, Any]:
 
 
 def plan(tier: str) -> dict[str, Any]:
-    return {"fixed": [], "seeded": 48 if tier == "quick" else 0, "chunk": 1, "wall_cap_s": 240, "minimise_s": 30}
+    return {"fixed": [], "seeded": 40 if tier == "quick" else 0, "chunk": 1, "wall_cap_s": 240, "minimise_s": 30}
 
 
 def entry_spec(entry: str, prog: progen.Prog, copier: bool, cli_format: str) -> dict[str, Any]:
@@ -384,6 +392,8 @@ def run_case(case: dict[str, Any], stats: Stats) -> list[Violation]:
     found: list[Violation] = []
     seen: set[str] = set()
     for sub in sub_cases(case, stats):
+        if runner_should_stop():
+            break
         for v in run_single(sub, stats):
             key = v.klass + "|" + v.sig
             if key not in seen:
